@@ -432,12 +432,12 @@ func RunC07(r *mon.Run) {
 	g := &gen{r: r, rng: r.Rand("c07")}
 	dyn, real := requestRules()
 	real = append(real, pbRule("Files", "UploadDownload", "UploadFileRequest", "google.api.HttpBody", "POST", "/files/{filename}", "file"))
-	envD, err := buildDynamic(dyn)
+	envD, err := buildDynamic(dyn, "")
 	if err != nil {
 		r.Inconclusive("harness: " + err.Error())
 		return
 	}
-	envR, err := buildTestpb()
+	envR, err := buildTestpb("")
 	if err != nil {
 		r.Inconclusive("harness: " + err.Error())
 		return
